@@ -3,7 +3,7 @@
 / `select_by_*` of the tree under check, the independent oracle (`expr_oracle`) and — when a driver path is given — the
 Lean model on the same inputs, and returns the comparison. stdin: one JSON job; stdout: one JSON result.
 
-job = {"driver": <path or null>, "kind": "exh", "symbols": [...], "maxlen": n, "first": [symbol indices], "empty": bool}
+job = {"driver": <path or null>, "kind": "exh", "symbols": [...], "maxlen": n, "prefixes": [[symbol indices], …], "shorter": bool}
     | {"driver": …, "kind": "list", "strings": [...]}
     | {"driver": …, "kind": "tasks", "cases": [{"tasks": [{"name","attrs","markers"}], "queries": [[mode, expr], …],
                                                  "probes": [sub, …]}]}
@@ -182,14 +182,21 @@ def check_strings(acc: Acc, strings, drv):
         flush()
 
 
-def enumerate_strings(symbols, maxlen, first, empty):
-    if empty:
-        yield ""
-    for f in first:
-        yield symbols[f]
-        for n in range(1, maxlen):
+def enumerate_strings(symbols, maxlen, prefixes, shorter):
+    """All concatenations of ≤ maxlen symbols that start with one of the symbol-index `prefixes` (all of one length p);
+    with `shorter`, also every concatenation of < p symbols (the empty string included)."""
+    p = len(prefixes[0]) if prefixes else 0
+    if shorter:
+        for n in range(0, min(p, maxlen + 1)):
+            for seq in itertools.product(symbols, repeat=n):
+                yield "".join(seq)
+    if p > maxlen:
+        return
+    for pre in prefixes:
+        head = "".join(symbols[i] for i in pre)
+        for n in range(0, maxlen - p + 1):
             for tail in itertools.product(symbols, repeat=n):
-                yield symbols[f] + "".join(tail)
+                yield head + "".join(tail)
 
 
 # ---------------------------------------------------------------------------------------------
@@ -307,7 +314,7 @@ def main():
     drv = Drv(job["driver"]) if job.get("driver") else None
     try:
         if job["kind"] == "exh":
-            check_strings(acc, enumerate_strings(job["symbols"], job["maxlen"], job["first"], job.get("empty", False)), drv)
+            check_strings(acc, enumerate_strings(job["symbols"], job["maxlen"], job["prefixes"], job.get("shorter", False)), drv)
         elif job["kind"] == "list":
             check_strings(acc, job["strings"], drv)
         elif job["kind"] == "tasks":
